@@ -153,6 +153,7 @@ struct Failure {
 struct SiteStats {
     std::uint64_t cases = 0, pass = 0, discard = 0, nontrivial = 0, distinct_nontrivial = 0, fails = 0;
     std::map<std::string, std::uint64_t> labels;
+    std::map<std::string, std::uint64_t> failclasses;  // enum mode: every unlisted failure counted by class
     std::map<std::string, std::uint64_t> excluded;  // known-finding id -> hits
     std::map<std::string, std::string> excluded_example;  // id -> first described case
     std::vector<std::string> samples;
@@ -198,6 +199,13 @@ static void write_result(std::string const& path, std::string const& mode, std::
           << ",\"labels\":{";
         bool f2 = true;
         for (auto const& kv : s.labels) {
+            if (!f2) o << ",";
+            f2 = false;
+            o << "\"" << jesc(kv.first) << "\":" << kv.second;
+        }
+        o << "},\"failclasses\":{";
+        f2 = true;
+        for (auto const& kv : s.failclasses) {
             if (!f2) o << ",";
             f2 = false;
             o << "\"" << jesc(kv.first) << "\":" << kv.second;
@@ -441,6 +449,39 @@ int main(int argc, char** argv)
         return any_fail ? 1 : 0;
     }
 
+    if (mode == "survey") {
+        // diagnostic only (never part of a verdict): uniformly random word vectors, every failure tallied by class, no shrinking
+        int cases = std::stoi(arg(a, "--cases", "100000"));
+        int nwords = std::stoi(arg(a, "--words", "16"));
+        for (std::size_t si : which) {
+            Site const& site = sites[si];
+            SiteStats& st = stats[si];
+            std::uint64_t x = mix(seed, std::hash<std::string>{}(site.name)) | 1;
+            auto next = [&] {
+                x ^= x << 13;
+                x ^= x >> 7;
+                x ^= x << 17;
+                return x;
+            };
+            std::vector<std::uint64_t> words(static_cast<std::size_t>(nwords));
+            for (int c = 0; c < cases; ++c) {
+                for (auto& wd : words) wd = next();
+                Outcome o;
+                Words w{words.data(), words.size(), 0};
+                site.run(w, o, nullptr);
+                if (o.kind == Outcome::FAIL) {
+                    ++st.cases;
+                    ++st.fails;
+                    ++st.failclasses[o.fclass];
+                    continue;
+                }
+                account(si, st, o, false);
+            }
+        }
+        write_result(out, mode, stats, which, seed);
+        return 0;
+    }
+
     if (mode == "enum") {
         std::uint64_t stripe_k = 0, stripe_n = 1;
         std::string stripe = arg(a, "--stripe");
@@ -474,6 +515,7 @@ int main(int argc, char** argv)
                         continue;
                     }
                     ++st.fails;
+                    ++st.failclasses[o.fclass];
                     bool have = false;
                     for (auto const& f : st.failures) have = have || f.cls == o.fclass;
                     if (!have && st.failures.size() < 8) {
